@@ -37,7 +37,12 @@ VM::VM(Program code) {
   this->data = {};
 }
 
-std::vector<VM::Activation> &VM::getActivations() { return this->stack; }
+std::vector<VM::Activation> &VM::getActivations() {
+  // the activations of a copied or moved machine still carry the address of
+  // the machine they were created in
+  for (auto &a : this->stack) a.vm = this;
+  return this->stack;
+}
 
 BreakPoint VM::getCurrentBreak() {
   auto itr = this->code.line_info.find(this->instruction_pointer - 1);
